@@ -1228,7 +1228,11 @@ func (f *FuncCFG) NodeSites(syms ...string) []site {
 						continue
 					}
 					call, isCall := es.X.(*ast.CallExpr)
-					if !isCall || !strings.HasPrefix(f.calleeSym(call), "sync/atomic.") {
+					// ... or takes a lock (bc.addLock.Lock()): "the lock is taken on the way" is a must-pass demand
+					if !isCall {
+						continue
+					}
+					if cs := f.calleeSym(call); !strings.HasPrefix(cs, "sync/atomic.") && !(strings.HasPrefix(cs, "sync.(*") && strings.HasSuffix(cs, "ock")) {
 						continue
 					}
 				}
